@@ -30,7 +30,9 @@ STRUCTURAL = ("open", "close", "init")
 
 
 def alphabet(kind="full", init_enum=False):
-    per = {"full": PER_NAME_FULL, "reduced": PER_NAME_REDUCED, "core": PER_NAME_CORE}[kind.partition("@")[0]]
+    per = {"full": PER_NAME_FULL, "reduced": PER_NAME_REDUCED, "core": PER_NAME_CORE,
+           # lead: old-style (K&R) definitions - identifier list plus declaration list
+           "kr": PER_NAME_CORE + ("open_kr",)}[kind.partition("@")[0]]
     evs = [(k, n) for k in per for n in NAMES]
     evs += [(k, None) for k in (STRUCTURAL if kind != "core" else ("open", "close"))]
     if init_enum:
@@ -160,6 +162,11 @@ def apply(st, ev, typedef_labels=False):
         if in_function(st):
             return None
         return (scopes + (("func", ((name, "ordinary", "param"),), ()),), (), linkage)
+    if k == "open_kr":       # int g(N) int N; {   same scoping as open_fn; an identifier
+        # list may not name a visible typedef (C11 6.9.1p6)
+        if in_function(st) or is_typedef(st, name):
+            return None
+        return (scopes + (("func", ((name, "ordinary", "param"),), ()),), (), linkage)
     if k == "open":
         if not in_function(st) or depth(st) >= MAX_DEPTH:
             return None
@@ -186,9 +193,17 @@ SPELLINGS = {
         "open_fn": "void g%(i)d ( int u%(i)d , int %(n)s ) {"},
     3: {"td": "typedef enum Z%(i)d %(n)s ;", "obj": "struct Z * %(n)s , * * w%(i)d ;",
         "open_fn": "int ( g%(i)d ( int %(n)s ) ) {"},
+    # a function returning a pointer to function: the OTHER name is a parameter
+    # of the returned type only and must not be declared in the body
+    5: {"td": "typedef int %(n)s ;", "obj": "int %(n)s ;",
+        "open_fn": "int ( * g%(i)d ( int %(n)s ) ) ( int %(o)s ) {"},
     4: {"td": "typedef int ( %(n)s ) ;", "obj": "struct Z ( * %(n)s ) = 0 , w%(i)d ;",
         "open_fn": "static int * g%(i)d ( int u%(i)d , int %(n)s , ... ) {"},
 }
+
+
+def _other(n):
+    return next((m for m in NAMES if m != n), n) if n else n
 
 
 def text(ev, idx):
@@ -206,7 +221,8 @@ def text(ev, idx):
         "member": "struct S%d { int %s ; } ;" % (idx, n),
         "label": "%s : ;" % n,
         "proto": "void h%d ( int %s ) ;" % (idx, n),
-        "open_fn": sp.get("open_fn", "void g%(i)d ( int %(n)s ) {") % {"n": n, "i": idx},
+        "open_fn": sp.get("open_fn", "void g%(i)d ( int %(n)s ) {") % {"n": n, "i": idx, "o": _other(n)},
+        "open_kr": "int g%d ( %s , kk%d ) int %s ; char kk%d ; {" % (idx, n, idx, n, idx),
         "open": "{",
         "close": "}",
         "init": "int z%d [ ] = { 0 } ;" % idx,
